@@ -226,6 +226,21 @@ def main(argv=None):
         if not reproduced:
             line += " no-failing-input-found"
         vio_lines.append(line)
+    # an undecided obligation that comes with a CANDIDATE counter-model (found among bounded instances of facts that
+    # also quantify over keys) is a violation only if the native replay reproduces it; otherwise it stays undecided
+    still_undecided = []
+    for rep, ob in undecided:
+        key = (rep["target"], ob["name"])
+        if ob.get("model") is None or key in seen_obl:
+            still_undecided.append((rep, ob))
+            continue
+        path, reproduced = write_replay(a.prop, rep, ob, repo, seed, tier)
+        if reproduced:
+            seen_obl.add(key)
+            vio_lines.append(f"VIOLATION property={a.prop} replay={path}")
+        else:
+            still_undecided.append((rep, ob))
+    undecided = still_undecided
     for b in bounded:
         if b.get("found"):
             path = write_bounded_replay(a.prop, b, repo)
